@@ -20,7 +20,7 @@ from typing import Dict, List
 from fjv import engines
 from fjv.arena import Arena, Block
 from fjv.core import Check
-from fjv.stl_common import compare, ival, oracle, run_behaviours
+from fjv.stl_common import assemble_blaming, compare, ival, oracle, run_behaviours
 
 NB, NS, NT, NBB = 12, 40, 6, 8       # cells of buf, of the observed part of the stack, jump targets, cells of the bit buffer
 NDH = 10
@@ -406,18 +406,8 @@ def gen_sets(rng: random.Random, arena: Arena, blk: Block, first: bool, with_hex
 
 def run_arena(chk: Check, fjm_run, w: int, blocks: List[Block], with_hex: bool, count: int, maxlen: int, rng: random.Random, tag: str, engine="native-flat"):
     from flipjump.utils.exceptions import FlipJumpException
-    arena = None
     all_blocks = list(blocks)
-    while True:
-        arena = make_arena(fjm_run, w, blocks, with_hex, engine)
-        try:
-            arena.assemble()
-            break
-        except FlipJumpException as e:
-            arena.close()
-            if ("Not enough space" not in str(e) and "verlap" not in str(e)) or len(blocks) < 3:
-                raise
-            blocks = blocks[: len(blocks) * 2 // 3]
+    arena, blocks = assemble_blaming(chk, lambda bl: make_arena(fjm_run, w, bl, with_hex, engine), blocks, f"ptr {tag} w={w}", min_blocks=3)
     try:
         behs = []
         for i in range(count):
@@ -468,9 +458,10 @@ def run_arena(chk: Check, fjm_run, w: int, blocks: List[Block], with_hex: bool, 
         chk.sample({"kind": "pointer behaviour", "w": w, "steps": [{"macro": blocks[s["block"]].name, "set": {k: hex(v) for k, v in s["set"].items()}} for s in behs2[-1]]})
     finally:
         arena.close()
-    if len(blocks) < len(all_blocks):
+    rest = [b for b in all_blocks if all(b is not x for x in blocks) and all(b is not x for x in arena.refused_blocks)]
+    if rest:
         # the address space had no room for all the blocks (w = 16): the rest gets an arena of its own
-        run_arena(chk, fjm_run, w, all_blocks[len(blocks):], with_hex, count, maxlen, rng, tag, engine)
+        run_arena(chk, fjm_run, w, rest, with_hex, count, maxlen, rng, tag, engine)
 
 
 def run(chk: Check, replay=None):
